@@ -29,6 +29,7 @@ import (
 
 	frugal "github.com/Workiva/frugal/lib/go"
 	"github.com/apache/thrift/lib/go/thrift"
+	"github.com/sirupsen/logrus"
 )
 
 // adpWatch is the watchdog, in time during which this process was demonstrably being scheduled
@@ -128,17 +129,18 @@ func goid() int64 {
 // ---------- scripted thrift.TTransport ----------
 
 type scriptT struct {
-	mu       sync.Mutex
-	cond     *sync.Cond
-	open     bool
-	gen      int
-	buf      []byte
-	term     error
-	failOpen int
-	woken    int
-	blocked  int
-	arrive   chan int64 // goid of a goroutine that starts blocking in Read with nothing to read
-	consumed chan struct{}
+	mu         sync.Mutex
+	cond       *sync.Cond
+	open       bool
+	gen        int
+	buf        []byte
+	term       error
+	openScript []byte // outcome of the next underlying Opens: 'f' refused, 'd' accepted and the connection dies at once
+	lastFlap   bool   // the connection made by the last successful Open dies at once
+	woken      int
+	blocked    int
+	arrive     chan int64 // goid of a goroutine that starts blocking in Read with nothing to read
+	consumed   chan struct{}
 }
 
 func newScriptT() *scriptT {
@@ -150,9 +152,14 @@ func newScriptT() *scriptT {
 func (t *scriptT) Open() error {
 	t.mu.Lock()
 	defer t.mu.Unlock()
-	if t.failOpen > 0 {
-		t.failOpen--
-		return errors.New("scripted: open failed")
+	flap := false
+	if len(t.openScript) > 0 {
+		o := t.openScript[0]
+		t.openScript = t.openScript[1:]
+		if o == 'f' {
+			return errors.New("scripted: open failed")
+		}
+		flap = true
 	}
 	if t.open {
 		return thrift.NewTTransportException(thrift.ALREADY_OPEN, "scripted: already open")
@@ -160,6 +167,10 @@ func (t *scriptT) Open() error {
 	t.open = true
 	t.gen++
 	t.buf, t.term = nil, nil
+	t.lastFlap = flap
+	if flap {
+		t.term = errScriptedRead // connection lifetime 0: the first read fails
+	}
 	return nil
 }
 
@@ -263,7 +274,11 @@ func (t *scriptT) takeWoken() int {
 	return n
 }
 
-func (t *scriptT) armFail() { t.mu.Lock(); t.failOpen++; t.mu.Unlock() }
+func (t *scriptT) armFail() { t.mu.Lock(); t.openScript = append(t.openScript, 'f'); t.mu.Unlock() }
+
+func (t *scriptT) armFlap() { t.mu.Lock(); t.openScript = append(t.openScript, 'd'); t.mu.Unlock() }
+
+func (t *scriptT) wasFlap() bool { t.mu.Lock(); defer t.mu.Unlock(); return t.lastFlap }
 
 // waitReader waits until a reader is blocked in Read (watchdog: false).
 func (t *scriptT) waitReader() bool {
@@ -278,7 +293,16 @@ func (t *scriptT) waitReader() bool {
 	return false
 }
 
-func (t *scriptT) failBudget() int { t.mu.Lock(); defer t.mu.Unlock(); return t.failOpen }
+// failBudget: how many of the next Opens are refused before one is accepted.
+func (t *scriptT) failBudget() int {
+	t.mu.Lock()
+	defer t.mu.Unlock()
+	n := 0
+	for n < len(t.openScript) && t.openScript[n] == 'f' {
+		n++
+	}
+	return n
+}
 
 var errScriptedRead = thrift.NewTTransportException(thrift.UNKNOWN_TRANSPORT_EXCEPTION, "scripted: read error")
 
@@ -325,12 +349,19 @@ type adpEnt struct {
 }
 
 type adpCtl struct {
-	tr      *scriptT
-	sock    *sockPeer // real-TSocket mode (adapter_sock.go): tr is nil
-	curLoop *adpEnt
-	exits   int32 // read loops that have returned (counted even after abort)
-	ft      frugal.FTransport
-	evq     chan interface{} // hookEv | monEv | callRes, in the order the real system produced them
+	tr          *scriptT
+	sock        *sockPeer // real-TSocket mode (adapter_sock.go): tr is nil
+	curLoop     *adpEnt
+	logGate     chan struct{} // the runner is held at its "successfully re-opened" log line
+	flapLoop    *adpEnt       // read loop of a connection that dies at once
+	flapPending bool          // that incarnation is not yet in c.incs
+	orphans     []*adpEnt     // read loops seen at a yield point before the controller knew their incarnation
+	incByApp    []bool        // per incarnation: opened by the application (not by the monitor)
+	manualRace  bool          // the application called Open while a close report was pending at the monitor
+	exits       int32         // read loops that have returned (counted even after abort)
+	monRunning  int32
+	ft          frugal.FTransport
+	evq         chan interface{} // hookEv | monEv | callRes, in the order the real system produced them
 
 	hmu      sync.Mutex
 	armErr   bool
@@ -370,8 +401,44 @@ type adpCtl struct {
 var adpCur atomic.Pointer[adpCtl]
 var adpHookOnce sync.Once
 
+// adpLogHook: the runner's log line between a successful Open() and its IsOpen() sanity check is
+// the one place where the controller can hold the runner (no yield point there): used only when the
+// connection just opened dies at once, to let that death happen BEFORE the sanity check.
+type adpLogHook struct{}
+
+func (adpLogHook) Levels() []logrus.Level { return logrus.AllLevels }
+
+func (adpLogHook) Fire(e *logrus.Entry) error {
+	if strings.Contains(e.Message, "successfully re-opened") {
+		if c := adpCur.Load(); c != nil {
+			c.monReopened()
+		}
+	}
+	return nil
+}
+
+func (c *adpCtl) monReopened() {
+	if c.tr == nil || !c.tr.wasFlap() {
+		return
+	}
+	c.hmu.Lock()
+	if c.aborted {
+		c.hmu.Unlock()
+		return
+	}
+	gate := make(chan struct{})
+	c.logGate = gate
+	c.hmu.Unlock()
+	c.evq <- monEv{kind: "reopened"}
+	<-gate
+}
+
 func adpInstallHook() {
 	adpHookOnce.Do(func() {
+		l := logrus.New()
+		l.Out = io.Discard
+		l.AddHook(adpLogHook{})
+		frugal.SetLogger(l)
 		frugal.SetVerifYield(func(point string, id uint64) {
 			if c := adpCur.Load(); c != nil {
 				c.hook(point)
@@ -386,7 +453,7 @@ func (c *adpCtl) hook(point string) {
 		atomic.AddInt32(&c.exits, 1)
 	}
 	c.hmu.Lock()
-	if (!c.known[g] && c.sock == nil) || c.aborted {
+	if c.aborted {
 		c.hmu.Unlock()
 		return
 	}
@@ -397,7 +464,8 @@ func (c *adpCtl) hook(point string) {
 			c.armErr, park = false, true
 		}
 	case "adapter.close.presignal":
-		if c.armPre {
+		if c.armPre && atomic.LoadInt32(&c.monRunning) == 0 {
+			// (nobody is held at this point while the monitor runs: its IsOpen would wait for the held closer)
 			c.armPre, park = false, true
 		}
 	case "adapter.readloop.exit":
@@ -457,10 +525,30 @@ func (c *adpCtl) loopEnt(g int64) *adpEnt {
 		c.ents[g] = c.curLoop
 		return c.curLoop
 	}
-	e := &adpEnt{isLoop: true, idx: len(c.incs), st: "run"}
+	if c.flapLoop != nil && !c.flapLoop.bound {
+		c.flapLoop.bound = true
+		c.ents[g] = c.flapLoop
+		return c.flapLoop
+	}
+	e := &adpEnt{isLoop: true, idx: len(c.incs) + 1, st: "run", bound: true}
 	c.ents[g] = e
 	c.order = append(c.order, e)
+	c.orphans = append(c.orphans, e)
 	return e
+}
+
+// flapOpened: an Open succeeded on a connection that dies at once; its read loop never blocks in
+// Read, it is followed from its first yield point (which may already have been seen).
+func (c *adpCtl) flapOpened() {
+	c.nLoops++
+	c.flapPending = true
+	if n := len(c.orphans); n > 0 {
+		c.flapLoop = c.orphans[n-1]
+		c.orphans = c.orphans[:n-1]
+		return
+	}
+	c.flapLoop = &adpEnt{isLoop: true, idx: len(c.incs) + 1, st: "run"}
+	c.order = append(c.order, c.flapLoop)
 }
 
 func (c *adpCtl) running() bool {
@@ -476,7 +564,8 @@ func (c *adpCtl) running() bool {
 }
 
 // opened: a new incarnation exists (Open returned nil); wait for its read loop to start reading.
-func (c *adpCtl) opened(ch <-chan error) {
+func (c *adpCtl) opened(ch <-chan error, byApp bool) {
+	c.incByApp = append(c.incByApp, byApp)
 	if c.obsOpen() {
 		c.violate("Open returned nil on an open transport")
 	}
@@ -491,6 +580,15 @@ func (c *adpCtl) opened(ch <-chan error) {
 		if !c.sock.awaitAccept() {
 			c.violate("Open returned nil but the peer saw no connection")
 		}
+		return
+	}
+	if c.flapPending || c.tr.wasFlap() {
+		if !c.flapPending {
+			c.flapOpened()
+		}
+		c.flapPending = false
+		c.flapLoop.idx = len(c.incs)
+		c.incFail[len(c.incFail)-1] += "e" // the connection died at once: an unclean failure of this incarnation
 		return
 	}
 	for {
@@ -553,7 +651,19 @@ func (c *adpCtl) obsOpen() bool {
 	return !c.incClosed[k] && len(c.incVals[k]) == 0
 }
 
+// healedByMonitor: the transport is open and it was the monitor that (re)opened it, with no
+// application Open racing a close report anywhere in this history.
+func (c *adpCtl) healedByMonitor() bool {
+	n := len(c.incByApp)
+	return c.obsOpen() && n > 0 && !c.incByApp[n-1] && !c.manualRace
+}
+
 func (c *adpCtl) closeCompleted() {
+	for _, e := range c.order {
+		if !e.isLoop && e.kind == 'O' && e.st != "done" {
+			c.manualRace = true // an application Open is already waiting for the mutex: it reopens before the monitor handles this close
+		}
+	}
 	if c.sock != nil {
 		if c.curLoop != nil && !c.curLoop.fed && !c.curLoop.counted {
 			c.curLoop.counted = true
@@ -680,7 +790,10 @@ func (c *adpCtl) onDone(r callRes) {
 	case 'O':
 		switch r.res {
 		case "ok":
-			c.opened(r.ch)
+			if c.monState == "parked" || c.monState == "busy" || c.buffered || c.monExpect {
+				c.manualRace = true // the application reopened the transport itself while a close report was on its way to / at the monitor
+			}
+			c.opened(r.ch, true)
 		case "already":
 			if !c.obsOpen() {
 				c.violate("Open reported ALREADY_OPEN on a closed transport")
@@ -719,13 +832,18 @@ func (c *adpCtl) onMon(m monEv) {
 		c.monExpect = false
 		c.monState = "parked"
 		c.stepMon = append(c.stepMon, "!"+m.tok)
+	case "reopened":
+		c.flapOpened()
 	case "log":
 		c.monLog = append(c.monLog, m.tok)
 		c.stepMon = append(c.stepMon, m.tok)
 		if m.term {
 			c.monState = "term"
+			if m.tok != "C" && c.healedByMonitor() {
+				c.violate("the monitor runner ended while the transport is open: the next failure will be neither reported nor healed")
+			}
 		} else if m.succ {
-			c.opened(m.ch)
+			c.opened(m.ch, false)
 			if c.buffered {
 				c.buffered = false
 				c.monExpect = true
@@ -963,6 +1081,9 @@ func runAdp(hist []byte, cfg adpCfg) (string, []string) {
 			if !newRunnerOK {
 				return "skip"
 			}
+			if a == 0 && (c.monState == "parked" || c.monState == "busy" || c.buffered) {
+				c.manualRace = true
+			}
 			e := c.startCall("OCI"[a], i)
 			asWaiter(e)
 			if !held {
@@ -1104,20 +1225,29 @@ func runAdp(hist []byte, cfg adpCfg) (string, []string) {
 			c.settle()
 			return c.report(e, "")
 		case 14:
-			c.tr.armFail()
+			if par >= 8 {
+				c.tr.armFlap()
+			} else {
+				c.tr.armFail()
+			}
 			return "a"
 		case 15:
 			if c.monState != "parked" || held {
 				return "skip"
 			}
 			budget, wasOpen := c.tr.failBudget(), c.obsOpen()
+			if c.healedByMonitor() {
+				c.violate("the monitor handles a close report although the transport is open and the application never reopened it (a failure reported twice / a report without a failure)")
+			}
 			c.monState = "busy"
 			c.hmu.Lock()
 			gate := c.monGate
 			c.monGate = nil
 			c.hmu.Unlock()
+			atomic.StoreInt32(&c.monRunning, 1)
 			close(gate)
 			c.settleMon()
+			atomic.StoreInt32(&c.monRunning, 0)
 			toks := []string{}
 			for _, t := range c.stepMon {
 				if !strings.HasPrefix(t, "!") {
@@ -1202,6 +1332,10 @@ func (c *adpCtl) finish(nHist int, outs, fl []string, cfg adpCfg) (string, []str
 		close(c.monGate)
 		c.monGate = nil
 	}
+	if c.logGate != nil {
+		close(c.logGate)
+		c.logGate = nil
+	}
 	c.hmu.Unlock()
 	if c.sock != nil {
 		c.sock.shutdown()
@@ -1214,6 +1348,12 @@ func (c *adpCtl) finish(nHist int, outs, fl []string, cfg adpCfg) (string, []str
 		laGuard(adpWatch, func() { c.ft.Close() })
 	} else {
 		c.tr.Close()
+	}
+	if c.sock == nil {
+		// every read loop of this history has returned before the next history installs its controller
+		for w := newWd(adpWatch); int(atomic.LoadInt32(&c.exits)) < c.nLoops && !w.Expired(); {
+			time.Sleep(100 * time.Microsecond)
+		}
 	}
 	adpCur.Store(nil)
 	sort.Strings(c.viol)
@@ -1233,6 +1373,13 @@ func (c *adpCtl) releaseEnt(e *adpEnt) {
 // settleMon: the monitor runs from its parked callback until it is idle, parked again or has terminated.
 func (c *adpCtl) settleMon() {
 	for c.monState == "busy" || c.monExpect || c.running() {
+		if c.logGate != nil && c.flapLoop != nil && c.flapLoop.st != "run" && c.flapLoop.st != "closing" {
+			c.hmu.Lock()
+			gate := c.logGate
+			c.logGate = nil
+			c.hmu.Unlock()
+			close(gate)
+		}
 		x, ok := laRecv(c.evq, adpWatch+200*time.Millisecond)
 		if ok {
 			c.dispatch(x)
@@ -1495,7 +1642,7 @@ func genOutages(r *Rng) ([]byte, adpCfg) {
 	}
 	h := []byte{0}
 	n := 2 + r.Intn(3)
-	for i := 0; i < n && len(h) < 48; i++ {
+	for i := 0; i < n && len(h) < 44; i++ {
 		k := r.Intn(cfg.max)
 		switch {
 		case r.Chance(40):
@@ -1503,14 +1650,34 @@ func genOutages(r *Rng) ([]byte, adpCfg) {
 		case r.Chance(15):
 			k = cfg.max
 		}
-		for j := 0; j < k; j++ {
-			h = append(h, 14)
+		// a FLAPPING peer: some of the connections the monitor gets are accepted and die at once
+		// (before its sanity check), 1..4 times in a row, alone or mixed with refused opens
+		flaps := 0
+		if r.Chance(45) {
+			flaps = 1 + r.Intn(4)
 		}
+		refusedLeft := k
+		for j := 0; j < k+flaps; j++ {
+			if flaps > 0 && (refusedLeft == 0 || r.Chance(50)) {
+				h = append(h, 14|0x80)
+				flaps--
+				refusedLeft = r.Intn(cfg.max) // refusals count afresh after every connection that was made
+				if refusedLeft > k {
+					refusedLeft = k
+				}
+			} else if refusedLeft > 0 {
+				h = append(h, 14)
+				refusedLeft--
+			}
+		}
+		nm := 1 + strings.Count(string(h), "\x8e")
 		h = append(h, byte(r.Pick(5, 6, 7, 9))|byte(r.Intn(16))<<4)
 		if r.Chance(15) {
 			h = append(h, 2)
 		}
-		h = append(h, 15)
+		for j := 0; j < nm && j < 6; j++ {
+			h = append(h, 15)
+		}
 		if k >= cfg.max {
 			h = append(h, 0) // the monitor has given up: the application reopens
 		}
